@@ -538,11 +538,33 @@ def split_db(rng, db):
         return [db[:k], db[k:]]
     return [db]
 
+def sched_style(rng):
+    """a random schedule of ITERATE / REVERSE / SORT commands over a fixed set of functions"""
+    g = cmd('FUNCTION', [Id('g')], [Id('cite$'), Id('write$'), Id('newline$')])
+    inc = cmd('FUNCTION', [Id('inc')], [Id('n'), I(1), Id('+'), Q('n'), Id(':='), Id('n'), Q('cnt'), Id(':=')])
+    show = cmd('FUNCTION', [Id('show')], [Id('cite$'), Sx(' '), Id('*'), Id('cnt'), Id('int.to.str$'), Id('*'), Sx(' '), Id('*'), Id('sort.key$'), Id('*'), Id('write$'), Id('newline$')])
+    pres = [cmd('FUNCTION', [Id('pt')], [Id('title'), Id('purify$'), Sx('l'), Id('change.case$'), Q('sort.key$'), Id(':=')]),
+            cmd('FUNCTION', [Id('py')], [Id('year'), Q('sort.key$'), Id(':=')]),
+            cmd('FUNCTION', [Id('pk')], [Id('cite$'), Q('sort.key$'), Id(':=')]),
+            cmd('FUNCTION', [Id('pn')], [Id('cnt'), Id('int.to.str$'), Q('sort.key$'), Id(':=')])]
+    steps = []
+    for _ in range(rng.randint(1, 7)):
+        r = rng.random()
+        if r < 0.3: steps.append(cmd('ITERATE', [Id(rng.choice(['pt', 'py', 'pk', 'pn']))]))
+        elif r < 0.5: steps.append(cmd('SORT'))
+        elif r < 0.65: steps.append(cmd('ITERATE', [Id('inc')]))
+        elif r < 0.8: steps.append(cmd('REVERSE', [Id(rng.choice(['inc', 'show', 'g']))]))
+        else: steps.append(cmd('ITERATE', [Id(rng.choice(['show', 'g']))]))
+    steps.append(cmd('ITERATE', [Id('show')]))
+    return norm([U._entry(), cmd('INTEGERS', [Id('n')]), g, inc, show] + pres + [cmd('READ')] + steps)
+
 def gen_engine(tier, rng):
     n = 2500 if tier == 'quick' else 15000
     for i in range(n):
-        style = rng.choice(SYN_NAMES + ['dump', 'dump', 'bytitle', 'bytitle'])
+        style = rng.choice(SYN_NAMES + ['dump', 'dump', 'bytitle', 'bytitle', 'sched', 'sched', 'sched', 'sched'])
         other = rng.choice([s for s in SYN_NAMES if s != style])
+        if style == 'sched':
+            SYN['sched'] = sched_style(rng)
         fmt = rng.choice([0, 0, 0, 1])
         db = rand_db(rng, dups=(fmt == 0))
         if fmt == 1:     # YAML mappings: exact duplicates of a key collapse inside the YAML reader
